@@ -247,3 +247,54 @@ class FreshTryFinally:
             content = ""
         self._names[content[:1]] = content
         return dict(self._names)
+
+
+class FreshStepsFromATable:
+    def __init__(self):
+        self._names = {}
+        self._content = ""
+
+    def parse(self, file_path):
+        self._content = _read(file_path)
+        for step in (self._reset, self._scan):
+            step()
+        return dict(self._names)
+
+    def _reset(self):
+        self._names = {}
+
+    def _scan(self):
+        for word in self._content.split():
+            self._names[word] = len(word)
+
+
+class StatefulOneStepOfSeveral:
+    def __init__(self):
+        self._names = {}
+
+    def parse(self, file_path):
+        content = _read(file_path)
+        step = self._reset if "@startuml" in content else self._keep
+        step()
+        for word in content.split():
+            self._names[word] = len(word)
+        return dict(self._names)
+
+    def _reset(self):
+        self._names = {}
+
+    def _keep(self):
+        pass
+
+
+class FreshPatternTable:
+    _patterns = {}
+
+    @classmethod
+    def _pattern(cls, name):
+        if name not in cls._patterns:
+            cls._patterns[name] = re.compile(WORD + name)
+        return cls._patterns[name]
+
+    def parse(self, file_path):
+        return self._pattern("x").findall(_read(file_path)) + self._pattern("y").findall(_read(file_path))
